@@ -41,6 +41,7 @@ ApplyFn(e) ==
     [] e.op = "ge_ops2" ->
          LET p == SMulB(Sc(e.p))   ep == Encode(p)   id == Encode(Ident)
          IN V(Encode(PNeg(p)) \o ep \o ep \o ep \o id \o id \o ep \o ep)
+    [] e.op = "scalar_muladd" -> V(BytesOfLimbs(MulAddL(Sc(e.a), Sc(e.b), Sc(e.c)), 32))      \* (a * b + c) mod L, operands any 256-bit values
     [] e.op = "scalar_consts" ->
          LET one == <<1>> \o Zeros(31)   z == Zeros(32)
          IN V(z \o one \o <<IF e.bytes = z THEN 1 ELSE 0, IF e.bytes = one THEN 1 ELSE 0, 1, IF e.bytes = one THEN 0 ELSE 1>>)
